@@ -16,6 +16,7 @@ pub struct TcpHeader {
     window_size: u16, // Window size
     checksum: u16,    // Checksum for integrity
     urgent: u16,      // Urgent pointer
+    options: Vec<u8>, // Options (data offset * 4 - 20 bytes)
 }
 
 impl From<&TcpHeader> for Vec<u8> {
@@ -25,9 +26,13 @@ impl From<&TcpHeader> for Vec<u8> {
         bytes.extend_from_slice(&hdr.dstport.to_be_bytes());
         bytes.extend_from_slice(&hdr.sequence.to_be_bytes());
         bytes.extend_from_slice(&hdr.ack.to_be_bytes());
-        bytes.extend_from_slice(&hdr.flags.to_be_bytes());
+        // data offset (4 bits), reserved (4 bits) and control bits (8 bits) share one word
+        let off_flags: u16 = (((hdr.data_off & 0x0F) as u16) << 12) | (hdr.flags & 0x0FFF);
+        bytes.extend_from_slice(&off_flags.to_be_bytes());
         bytes.extend_from_slice(&hdr.window_size.to_be_bytes());
         bytes.extend_from_slice(&hdr.checksum.to_be_bytes());
+        bytes.extend_from_slice(&hdr.urgent.to_be_bytes());
+        bytes.extend_from_slice(&hdr.options);
         bytes
     }
 }
@@ -85,10 +90,17 @@ impl Tcp {
             rawdata[off + 11],
         ]);
         let data_off = rawdata[off + 12] >> 4;
-        let flags = u16::from_be_bytes([rawdata[off + 12], rawdata[off + 13]]);
+        // the header is data_off 32-bit words long (never less than the fixed part)
+        let hdr_len = std::cmp::max(data_off as usize * 4, TCP_HEADER_SIZE);
+        if rawdata.len() < off + hdr_len {
+            return Err(PacketError::InvalidLength(rawdata.len()));
+        }
+        // reserved and control bits; the data offset nibble is kept in data_off
+        let flags = u16::from_be_bytes([rawdata[off + 12], rawdata[off + 13]]) & 0x0FFF;
         let window_size = u16::from_be_bytes([rawdata[off + 14], rawdata[off + 15]]);
         let checksum = u16::from_be_bytes([rawdata[off + 16], rawdata[off + 17]]);
         let urgent = u16::from_be_bytes([rawdata[off + 18], rawdata[off + 19]]);
+        let options = rawdata[off + TCP_HEADER_SIZE..off + hdr_len].to_vec();
 
         let header = RefCell::new(TcpHeader {
             srcport,
@@ -100,12 +112,13 @@ impl Tcp {
             window_size,
             checksum,
             urgent,
+            options,
         });
 
         Ok(Self {
             header,
             rawdata: RefCell::new(rawdata),
-            offset: off + TCP_HEADER_SIZE,
+            offset: off + hdr_len,
             inner: RefCell::new(None),
         })
     }
@@ -131,7 +144,7 @@ impl Tcp {
     }
 
     pub fn get_flags(&self) -> Rc<Object> {
-        Rc::new(Object::Integer(self.header.borrow().flags as i64))
+        Rc::new(Object::Integer((self.header.borrow().flags & 0x00FF) as i64))
     }
 
     pub fn get_window_size(&self) -> Rc<Object> {
@@ -189,7 +202,7 @@ impl Tcp {
     pub fn set_data_off(&self, data_off: Rc<Object>) -> Result<(), String> {
         match data_off.as_ref() {
             Object::Integer(data_off_value) => {
-                self.header.borrow_mut().data_off = *data_off_value as u8;
+                self.header.borrow_mut().data_off = (*data_off_value as u8) & 0x0F;
                 Ok(())
             }
             _ => Err("Invalid value for data offset".to_string()),
@@ -199,7 +212,8 @@ impl Tcp {
     pub fn set_flags(&self, flags: Rc<Object>) -> Result<(), String> {
         match flags.as_ref() {
             Object::Integer(flags_value) => {
-                self.header.borrow_mut().flags = *flags_value as u16;
+                let reserved = self.header.borrow().flags & 0x0F00;
+                self.header.borrow_mut().flags = reserved | (*flags_value as u16 & 0x00FF);
                 Ok(())
             }
             _ => Err("Invalid value for flags".to_string()),
